@@ -188,7 +188,8 @@ Proof. unfold outboard_post_order_r, outboard_post_order. exact (proj2 (outboard
 
 End DecodeIndep.
 
-(* ---------- fsm: tokio read_exact for the parents, so schedules without Interrupted ---------- *)
+(* ---------- fsm: tokio read_exact for the parents, tokio take(len).read_to_end for the leaves: neither
+   retries an Interrupted, so schedules without Interrupted ---------- *)
 Section DecodeIndepFsm.
 Variable HO : hops.
 Notation bytes := (bytes HO).
@@ -228,7 +229,7 @@ Proof.
       rewrite <- Hrest. replace (blen HO (rd_rest HO rd) <? 64) with true by (symmetry; apply N.ltb_lt; exact Hlt).
       split; [reflexivity|]. unfold rrel_after. cbn. repeat split; [exact Hf' | exact Hni' | discriminate].
   - destruct (N.le_gt_cases size (blen HO (rd_rest HO rd))) as [Hle|Hlt].
-    + destruct (tokio_read_bytes_exact_enough HO rd size Hnf Hle) as (rd' & Er & Hr' & Hf' & Hs'). rewrite Er.
+    + destruct (tokio_read_bytes_exact_enough HO rd size Hnf Hni Hle) as (rd' & Er & Hr' & Hf' & Hs'). rewrite Er.
       pose proof (no_intr_suffix HO rd rd' Hs' Hni) as Hni'.
       rewrite <- Hrest. replace (blen HO (rd_rest HO rd) <? size) with false by (symmetry; apply N.ltb_ge; exact Hle).
       destruct stack as [|lh stk].
@@ -236,7 +237,7 @@ Proof.
       * destruct (negb (bytes_eqb HO lh (hash_subtree HO start (take HO size (rd_rest HO rd)) is_root))).
         -- split; [reflexivity|]. unfold rrel_after. cbn. now repeat split.
         -- split; [reflexivity|]. unfold rrel_after. cbn. now repeat split.
-    + destruct (tokio_read_bytes_exact_short HO rd size Hnf Hlt) as (rd' & Er & Hf' & Hs'). rewrite Er.
+    + destruct (tokio_read_bytes_exact_short HO rd size Hnf Hni Hlt) as (rd' & Er & Hf' & Hs'). rewrite Er.
       pose proof (no_intr_suffix HO rd rd' Hs' Hni) as Hni'.
       rewrite <- Hrest. replace (blen HO (rd_rest HO rd) <? size) with true by (symmetry; apply N.ltb_lt; exact Hlt).
       split; [reflexivity|]. unfold rrel_after. cbn. repeat split; [exact Hf' | exact Hni' | discriminate].
@@ -323,7 +324,8 @@ Theorem decode_indep_fsm_state root q t (stream : bytes) (sched : list ev) :
    rd_rest HO (rr_rd HO (snd x)) = r_enc HO (snd y)).
 Proof. intros Hni x y. apply rres_rel_elim. exact (rd_run_sim _ _ (rrel_init root q t stream sched Hni)). Qed.
 
-(* why no Interrupted: the parent read (tokio read_exact) does not retry it *)
+(* why no Interrupted: neither the parent read (tokio read_exact) nor the leaf read (tokio
+   take(len).read_to_end) retries it *)
 Theorem tokio_read_n_interrupted :
   tokio_read_n HO (mkRd HO [bzero HO] [EIntr] 0 None) 1 = (Err KInterrupted, mkRd HO [bzero HO] [] 1 None).
 Proof. reflexivity. Qed.
@@ -333,5 +335,57 @@ Theorem decode_fsm_interrupted_differs :
   fst (rd_run_r HO (rd_new_r HO [] [0] (mkTree 2048 0) (mkRd HO [] [EIntr] 0 None))) = ([], Failed (DIo KInterrupted)) /\
   fst (rd_run HO (rd_new HO [] [0] (mkTree 2048 0) [])) = ([], Failed (DParentNotFound 0)).
 Proof. split; vm_compute; reflexivity. Qed.
+
+(* the leaf read (iroh-io read_bytes = tokio take(len).read_to_end) does not retry it either: one byte, then an
+   Interrupted, with both bytes of the read available *)
+Theorem tokio_read_bytes_interrupted_is_propagated :
+  tokio_read_bytes_exact HO (mkRd HO [bzero HO; bzero HO] [EFrag 1; EIntr] 0 None) 2
+  = (Err KInterrupted, mkRd HO [bzero HO] [] 2 None).
+Proof. reflexivity. Qed.
+
+(* the run over the plain bytes never reports an io error *)
+Lemma loop2_inr_inv {S1 R1} (P : R1 -> Prop) (f : S1 -> S1 + R1) :
+  (forall s r, f s = inr r -> P r) -> forall d s r, loop2 d f s = inr r -> P r.
+Proof.
+  intros H. induction d as [|d IH]; intros s r; cbn [loop2]; [apply H|].
+  destruct (loop2 d f s) as [s'|r'] eqn:E.
+  - apply IH.
+  - intros [= <-]. eapply IH. exact E.
+Qed.
+Lemma rd_next_no_io b : match rd_next HO b with RMore _ (Err (DIo _)) => False | _ => True end.
+Proof.
+  unfold rd_next. destruct (response_next (r_iter HO b)) as [[c it']|]; [|exact I].
+  destruct c as [node is_root lf rt rs | start size is_root rs]; cbv zeta.
+  - destruct (blen HO (r_enc HO b) <? 64); [exact I|].
+    destruct (parse_pair HO (take HO 64 (r_enc HO b))) as [l r].
+    destruct (r_stack HO b) as [|ph stk]; [exact I|].
+    destruct (negb (bytes_eqb HO ph (parent_cv HO l r is_root))); exact I.
+  - destruct (blen HO (r_enc HO b) <? size); [exact I|].
+    destruct (r_stack HO b) as [|lh stk]; [exact I|].
+    destruct (negb (bytes_eqb HO lh (hash_subtree HO start (take HO size (r_enc HO b)) is_root))); exact I.
+Qed.
+Lemma rd_step_p_no_io k s r : rd_step_p s = inr r -> snd (fst r) <> Failed (DIo k).
+Proof.
+  unfold rd_step_p. pose proof (rd_next_no_io (fst s)) as Hn.
+  destruct (rd_next HO (fst s)) as [st' [it|e|]|rest]; intros [= <-]; cbn [fst snd]; try discriminate.
+  destruct e; try discriminate. contradiction.
+Qed.
+Lemma rd_run_no_io_d k d b :
+  snd (fst (match loop2 d rd_step_p (b, []) with inr r => r | inl sa => (rev (snd sa), OutOfFuel, fst sa) end))
+  <> Failed (DIo k).
+Proof.
+  destruct (loop2 d rd_step_p (b, [])) as [sa|r] eqn:E; [cbn [fst snd]; discriminate|].
+  exact (loop2_inr_inv (fun r => snd (fst r) <> Failed (DIo k)) rd_step_p (rd_step_p_no_io k) d _ _ E).
+Qed.
+Theorem rd_run_no_io b k : snd (fst (rd_run HO b)) <> Failed (DIo k).
+Proof. exact (rd_run_no_io_d k LOOP_DEPTH b). Qed.
+
+(* the fsm decoder with the Interrupted hitting a LEAF read (one leaf of 2 bytes): Io(Interrupted), which the
+   run over the plain bytes never reports *)
+Theorem decode_fsm_leaf_interrupted_is_propagated root :
+  fst (rd_run_r HO (rd_new_r HO root [0] (mkTree 2 0) (mkRd HO [bzero HO; bzero HO] [EFrag 1; EIntr] 0 None)))
+    = ([], Failed (DIo KInterrupted)) /\
+  snd (fst (rd_run HO (rd_new HO root [0] (mkTree 2 0) [bzero HO; bzero HO]))) <> Failed (DIo KInterrupted).
+Proof. split; [vm_compute; reflexivity | apply rd_run_no_io]. Qed.
 
 End DecodeIndepFsm.
